@@ -104,7 +104,12 @@ func c20JSONAfter(key string, history int) (labels map[string]string, errText st
 		recs = append(recs, fakedocker.Rec{Stream: 1, TS: fakedocker.TS(int64(h+1) * 1e6), Msg: string(line)})
 	}
 	recs = append(recs, fakedocker.Rec{Stream: 1, TS: fakedocker.TS(1 * sec), Msg: string(doc)})
-	fake := fakedocker.New([]fakedocker.Container{{ID: "c", Name: "/c", Image: "img", State: "running", Labels: map[string]string{},
+	// every second history length: the container carries a Docker label with the same key (the same label name, then)
+	dockerLabels := map[string]string{}
+	if history%2 == 1 || history == 0 && len(key)%2 == 0 {
+		dockerLabels[key] = "from-docker"
+	}
+	fake := fakedocker.New([]fakedocker.Container{{ID: "c", Name: "/c", Image: "img", State: "running", Labels: dockerLabels,
 		Log: fakedocker.Encode(recs)}})
 	s := vsched.RunMain(vsched.NewCtx(nil), func() {
 		q, _ := dockerlog.NewQuerier(fake)
